@@ -1,6 +1,6 @@
 (** C14 - built-in error messages name the right place, value and alternatives. *)
-From Deserr Require Import Base Pointer Kinds Value Prog Utf8 Scalars Types Deser Monitors Messages.
-From Deserr.proofs Require Import C14Proofs PathProofs.
+From Deserr Require Import Base Pointer Kinds Value Prog Utf8 Scalars Types Deser Monitors C04Defs Messages.
+From Deserr.proofs Require Import C14Proofs PathProofs C04Proofs.
 Local Open Scope string_scope.
 
 (** JsonError and QueryParamError always answer Break and return errors handed to them
@@ -28,6 +28,24 @@ Example c14_example :
      = "Unknown field `doggo`: did you mean `dogo`? expected one of `dogo`, `catto`"%string.
 Proof. vm_compute. repeat split. Qed.
 
+
+(** The report that the message renders is true of the payload (under the hypotheses of C04):
+    its location exists in the payload; the value quoted by an "Invalid value type" message is
+    the value found there and its kind is not among the expected ones; the sequence quoted by an
+    "Invalid array len" message is the sequence found there, of another length; a field reported
+    missing is absent from the object there; an unknown field / value is present there and not
+    among the alternatives listed. *)
+Theorem c14_rendered_report_is_true : forall t v script c,
+  nodup_keys v = true -> c04_wf t = true ->
+  find creates (snd (run script (deserialize t v) [])) = Some c -> call_ok v c.
+Proof.
+  intros t v script c Hnd Hwf Hf. apply find_some in Hf. destruct Hf as [Hin _].
+  pose proof (deserialize_calls_true t v script Hnd Hwf) as H. rewrite Forall_forall in H. apply H. exact Hin.
+Qed.
+
+Check c14_rendered_report_is_true : forall t v script c,
+  nodup_keys v = true -> c04_wf t = true ->
+  find creates (snd (run script (deserialize t v) [])) = Some c -> call_ok v c.
 
 (** The JSON rendering of a location can be parsed back (by the left-to-right parser
     [PathProofs.parse_path]) into exactly the steps of the location, when no key contains '.' or
@@ -58,3 +76,4 @@ Print Assumptions c14_first_report.
 Print Assumptions c14_ok_same.
 Print Assumptions c14_path_roundtrip.
 Print Assumptions c14_path_injective.
+Print Assumptions c14_rendered_report_is_true.
